@@ -60,6 +60,8 @@ def regenerate(repo, coq_dir):
         if gen is None:
             continue
         try:
+            if os.environ.get('VERIF_TEST_BREAK_GEN') == pid:   # self-test of the fail-closed path (tools/test_break_gen.py)
+                raise RuntimeError('VERIF_TEST_BREAK_GEN: simulated change of the source shape')
             for rel, text in gen(repo).items():
                 if not rel.startswith('Gen/'):
                     raise ValueError(f'generate() of {pid} writes outside Gen/: {rel}')
